@@ -12,7 +12,7 @@ namespace Btdht
 
 /-- the transaction id of an incoming datagram -/
 inductive InTid where
-  | raw (b : Bytes)          -- arbitrary bytes that are no id this node drew and whose action prefix is unused
+  | raw (b : Bytes)          -- bytes that are no id this node drew: of a length other than 8, or with an unused action prefix
   | sym (t : Tid)            -- an id this node drew
   | fresh (aid : Nat)        -- 8 bytes with the action prefix `aid` and a message id this node never drew
   deriving DecidableEq, Repr
